@@ -18,6 +18,7 @@ func C07(r *core.Report) {
 		"R2 the epoch readers are put in newest-first order by a strict descending sort that dominates the construction of the reader list, and the multi-epoch reader iterates that slice; " +
 		"R3 in the slot-window iterator each bound (before, until) is compared with the fetched transaction's slot on every path to the append; R4 an address absent from an epoch (IsNotFound) continues with the next epoch instead of returning; " +
 		"R5 in the signature-window iterator the limit test and the reached-before test dominate the append, the append is not reachable in the iteration where the before-signature matched, and the until test comes after the append. " +
+		"R6 in every history reader with a limit the quantity compared with the limit on the way to an append is the size of the whole result (len of the appended slice or a Count() that sums len over the whole map), not of one per-epoch part. " +
 		"Not decided: the arithmetic of limit across epochs and the result for concrete histories."
 	r.Assumptions = []string{"Go map iteration order is unspecified (language spec)"}
 	c07MapOrder(r)
@@ -25,11 +26,13 @@ func C07(r *core.Report) {
 	c07SlotBounds(r)
 	c07AbsentSkipped(r)
 	c07WindowShape(r)
+	c07LimitCountsWholeResult(r)
 	r.Floor("C07.R1", 3)
 	r.Floor("C07.R2", 4)
 	r.Floor("C07.R3", 2)
 	r.Floor("C07.R4", 2)
 	r.Floor("C07.R5", 4)
+	r.Floor("C07.R6", 4)
 }
 
 // mapRangeOrderSensitive inspects every range-over-map in f and returns, per range statement, the
@@ -524,4 +527,176 @@ func c07WindowShape(r *core.Report) {
 		}
 	}
 	r.Check(okUntil, rule, f.Key+"#until-inclusive", pos(r, an.Ast), "the `until` test comes after the append (inclusive bound) and ends the walk", "the `until` signature is tested before the entry is appended or not at all: the upper paging bound is not inclusive")
+}
+
+// c07LimitCountsWholeResult (C07.R6): in every history reader that takes a limit, the quantity compared with the limit
+// on the way to an append is the size of the whole result (len of the appended slice, or a Count() that sums over the
+// whole map), never the size of one per-epoch part of it.
+func c07LimitCountsWholeResult(r *core.Report) {
+	const rule = "C07.R6"
+	p := r.Prog
+	for _, key := range []string{
+		"gsfa.(*GsfaReaderMultiepoch).iterBeforeUntil", "gsfa.(*GsfaReaderMultiepoch).iterBeforeUntilSlot",
+		"gsfa.(*GsfaReader).Get", "gsfa.(*GsfaReader).GetBeforeUntil",
+	} {
+		f := r.Anchor(rule, key)
+		if f == nil {
+			continue
+		}
+		info := f.Pkg.TypesInfo
+		limit := f.ParamByName("limit")
+		if limit == nil {
+			r.Undecided(rule, f.Key+"#limit", posP(r, f.Pos()), "parameter limit not found")
+			continue
+		}
+		g, apps, _ := resultAppends(p, f)
+		if len(apps) == 0 {
+			r.Undecided(rule, f.Key+"#append", posP(r, f.Pos()), "append to the result not found")
+			continue
+		}
+		for i, an := range apps {
+			as := an.Ast.(*ast.AssignStmt)
+			lhs := core.Unparen(as.Lhs[0])
+			whole := true
+			if ix, ok := lhs.(*ast.IndexExpr); ok {
+				lhs, whole = core.Unparen(ix.X), false
+			}
+			base := core.ObjOf(info, lhs)
+			if base == nil {
+				r.Undecided(rule, fmt.Sprintf("%s#append%d", f.Key, i), pos(r, an.Ast), "result container of the append not identified")
+				continue
+			}
+			// sizeOfWhole: does q denote the size of the whole result?
+			sizeOfWhole := func(q ast.Expr) (bool, string) {
+				c, ok := core.Unparen(q).(*ast.CallExpr)
+				if !ok {
+					return false, core.ExprStr(q)
+				}
+				if core.BuiltinName(info, c) == "len" && len(c.Args) == 1 {
+					if core.ObjOf(info, c.Args[0]) == base && whole {
+						return true, ""
+					}
+					return false, core.ExprStr(q)
+				}
+				if sel, ok := core.Unparen(c.Fun).(*ast.SelectorExpr); ok && core.ObjOf(info, sel.X) == base {
+					if fn := core.Callee(info, c); fn != nil {
+						if cf := p.ByObj[fn.Origin()]; cf != nil && sumsLenOverReceiver(cf) {
+							return true, ""
+						}
+					}
+				}
+				return false, core.ExprStr(q)
+			}
+			// classify every edge that is the false outcome of a condition with a `q >= limit` conjunct
+			wholeEdge := map[*core.GNode]bool{}
+			classify := func(d *core.GNode) (isLimit, isWhole bool, what string) {
+				if d.Kind != core.KEdge || d.Truth || d.Ast == nil {
+					return
+				}
+				cond, ok := d.Ast.(ast.Expr)
+				if !ok {
+					return
+				}
+				for _, cj := range conjuncts(cond) {
+					be, ok := core.Unparen(cj).(*ast.BinaryExpr)
+					if !ok || (be.Op != token.GEQ && be.Op != token.LEQ) {
+						continue
+					}
+					q, l := be.X, be.Y
+					if be.Op == token.LEQ {
+						q, l = be.Y, be.X
+					}
+					if core.ObjOf(info, l) != limit {
+						continue
+					}
+					if tv, ok := info.Types[q]; ok && tv.Value != nil {
+						continue // `limit <= 0` and the like
+					}
+					isLimit = true
+					if ok, w := sizeOfWhole(q); ok {
+						isWhole = true
+					} else {
+						what = w
+					}
+				}
+				return
+			}
+			found, bad := false, ""
+			for _, d := range g.Nodes {
+				if isL, isW, _ := classify(d); isL && isW {
+					wholeEdge[d] = true
+				}
+			}
+			for _, d := range g.Dominators(an) {
+				isL, isW, what := classify(d)
+				if !isL {
+					continue
+				}
+				if isW {
+					found = true
+				} else {
+					bad = what
+				}
+			}
+			// every way from one append to the next passes a whole-result limit test
+			if found && bad == "" {
+				reach := g.Reach(an, func(n *core.GNode) bool { return wholeEdge[n] })
+				if reach[an] {
+					found, bad = false, "nothing on some way from one append to the next"
+				}
+			}
+			k := fmt.Sprintf("%s#append%d-limit-counts-whole-result", f.Key, i)
+			switch {
+			case found && bad == "":
+				r.OK(rule, k, pos(r, an.Ast), "the limit is compared with the size of the whole result before the append")
+			case bad != "":
+				r.Violation(rule, k, pos(r, an.Ast), "the limit is compared with "+bad+", which is not the size of the whole result: more than `limit` entries can be returned across epochs")
+			default:
+				r.Violation(rule, k, pos(r, an.Ast), "no `size >= limit` test on the whole result dominates the append")
+			}
+		}
+	}
+}
+
+func conjuncts(e ast.Expr) []ast.Expr {
+	e = core.Unparen(e)
+	if be, ok := e.(*ast.BinaryExpr); ok && be.Op == token.LAND {
+		return append(conjuncts(be.X), conjuncts(be.Y)...)
+	}
+	return []ast.Expr{e}
+}
+
+// sumsLenOverReceiver: the method ranges over its receiver and adds len(value) of every element to the returned counter.
+func sumsLenOverReceiver(f *core.Func) bool {
+	if f.Decl == nil || f.Decl.Recv == nil || len(f.Decl.Recv.List) == 0 || len(f.Decl.Recv.List[0].Names) == 0 || f.Body == nil {
+		return false
+	}
+	info := f.Pkg.TypesInfo
+	recv := info.Defs[f.Decl.Recv.List[0].Names[0]]
+	ok := false
+	ast.Inspect(f.Body, func(n ast.Node) bool {
+		rs, isR := n.(*ast.RangeStmt)
+		if !isR || core.ObjOf(info, rs.X) != recv || rs.Value == nil {
+			return true
+		}
+		val := core.ObjOf(info, rs.Value)
+		for _, st := range rs.Body.List {
+			as, isA := st.(*ast.AssignStmt)
+			if !isA || as.Tok != token.ADD_ASSIGN || len(as.Rhs) != 1 {
+				continue
+			}
+			if c, isC := core.Unparen(as.Rhs[0]).(*ast.CallExpr); isC && core.BuiltinName(info, c) == "len" && len(c.Args) == 1 && core.ObjOf(info, c.Args[0]) == val {
+				ok = true
+			}
+		}
+		return true
+	})
+	// no early exit from the loop
+	ast.Inspect(f.Body, func(n ast.Node) bool {
+		if b, isB := n.(*ast.BranchStmt); isB && (b.Tok == token.BREAK || b.Tok == token.GOTO) {
+			ok = false
+		}
+		return true
+	})
+	return ok
 }
